@@ -249,6 +249,9 @@ def execute(spec, w, ctx):
         shapes.append(kind + ":" + ",".join(kinds[g][0] for g in games))
         cfg = common.env_cfg(op)
         cfg["step_cap"] = budget(games)
+        heavy = cfg["step_cap"] > 20 * 30000 + 100000
+        if heavy and cfg.get("log") == "d":
+            cfg["log"] = "i"    # debug logging emits a record per state per sweep
         if kind == "batch":
             arg = {pool[g]["name"]: live[g] for g in games}
             out = ops.run_games(w, arg, cfg)
@@ -269,7 +272,10 @@ def execute(spec, w, ctx):
             path = "inputs/%s.py" % op.get("stem", "in")
             w.fs.write_text(path, text)
             cap = {}
-            out = ops.solver_cli(w, path, bool(op.get("save")), op.get("log"), cfg, op.get("entropy", 0), cap)
+            log = op.get("log")
+            if heavy and log == "d":
+                log = "i"
+            out = ops.solver_cli(w, path, bool(op.get("save")), log, cfg, op.get("entropy", 0), cap)
             events.append([i_op, "cli", names, out["status"], out["steps"], bool(op.get("save")), op.get("log")])
             if out["status"] != "ok":
                 v = viol("I12.3", i_op, "`conditionalrewards.py -f %s%s` over games %s did not finish: %s" % (
